@@ -14,10 +14,29 @@ HUGE = [2 ** 31, 2 ** 31 + 1, 2 ** 32, 2 ** 32 + 1, 2 ** 32 + 2, 2 ** 63, 2 ** 6
 EDIT_CHARS = b"/~0123456789:Aa-+ ~1~0e."
 
 
+# numbers at the ends of the double range and beyond the int range; any two of them (and any of them and a k/8 grid number)
+# differ by far more than the relative tolerance, so "equal" and "equal within DBL_EPSILON" coincide on the whole pool
+TINY_NUMBERS = [5e-324, 1e-310, 1e-308, 3e-308, -1e-308, -3e-308, 2.2250738585072014e-308, 1e-300, 1.00000001e-300, 4e-292]
+HUGE_NUMBERS = [1e300, 1.5e300, -1e300, 1.7976931348623157e308, -1.7976931348623157e308, 8.9e307]
+EDGE_NUMBERS = TINY_NUMBERS + HUGE_NUMBERS + [2147483648.0, -2147483649.0, 4294967296.0, 9007199254740994.0, 1e15, 0.1, 1e-7, 123456789.125]
+
+
+def other_number(x, rnd):
+    """a number different from x (by much more than the tolerance) and, for very small / very large x, of similar magnitude"""
+    if x != 0.0 and abs(x) < 1e-290:
+        pool = [t for t in TINY_NUMBERS + [0.0] if t != x]
+    elif abs(x) > 1e290:
+        pool = [t for t in HUGE_NUMBERS if t != x]
+    else:
+        pool = [x + d for d in (1.0, -1.0, 0.5, 3.0, -0.125)] + ([5e-324, 1e-310] if x == 0.0 else [])
+    return rnd.choice(pool)
+
+
 def utils_documents(max_leaves=12, min_leaves=1, wide=True):
     leaves = st.one_of(st.just(["n"]), st.just(["t"]), st.just(["f"]),
                        st.integers(-20, 20).map(lambda i: ["N", float(i)]),
                        st.integers(-40, 40).map(lambda i: ["N", i / 8.0]),
+                       st.sampled_from(EDGE_NUMBERS).map(lambda d: ["N", d]),
                        st.sampled_from([b"", b"x", b"str", b"a/b", b"~"]).map(lambda s: ["S", s]))
     keys = st.one_of(st.sampled_from(UKEYS), st.sampled_from(UKEYS), st.lists(st.sampled_from(list(b"aA01/~-b")), max_size=3).map(bytes),
                      st.sampled_from(LONG_KEYS))
